@@ -454,6 +454,90 @@ func runC11(ctx Ctx) int {
 		runConc(run, "C11", cb, cs)
 	}
 	finishCapped(run, complete, fmt.Sprintf("%d configurations (k<=%d over %d dims), each a history of ~14 requests on one provider", len(items), k, len(c11Space.Dims)))
+	c11Interceptors(run)
 	runLongRuns(run, "C11")
 	return run.Finish()
+}
+
+// c11Interceptors: the provider is built with an integrator middleware (WithHttpInterceptors) that puts its own issuer into the
+// context, rewrites the request host, does both, or does nothing. Whatever issuer is in effect then, it is ONE issuer per request
+// kind and host: the entityID of the metadata equals the Issuer of an SSO error reply, a logout response, a callback reply and an
+// attribute-query reply obtained the same way, and a request addressed to the advertised SSO location is accepted.
+func c11Interceptors(run *ev.Run) {
+	for _, ic := range []string{"sets-issuer", "rewrites-host", "pass-through", "both"} {
+		for _, mode := range []string{"", "host", "forwarded"} {
+			for _, host := range []string{"", "tenant-x.example:8443"} {
+				cfg := world.Config{Interceptor: ic, IssuerMode: mode}
+				if mode != "" {
+					cfg.HostPath = "saml"
+				}
+				w, err := stdWorld(cfg)
+				if err != nil {
+					run.HarnessError("c11Interceptors: " + err.Error())
+					continue
+				}
+				labels := []string{"interceptor=" + ic, "issuer-mode=" + mode, "host=" + host}
+				bad := func(clause, detail string) {
+					run.Violate(clause, "interceptors", labels, map[string]any{"detail": detail}, nil)
+				}
+				run.Evaluations.Add(1)
+				mrep := w.Do(world.NewRequest("GET", host, w.Cfg.MetadataPath(), nil, "", nil))
+				md, perr := xt.Parse(mrep.Body)
+				if mrep.Panic != "" || mrep.Status != 200 || perr != nil {
+					run.Outcome("interceptors:metadata-not-served")
+					bad("metadata-not-served", fmt.Sprintf("status %d panic %q %v", mrep.Status, mrep.Panic, perr))
+					continue
+				}
+				entity := md.A("entityID")
+				sso := ""
+				if d := md.Path("IDPSSODescriptor"); d != nil {
+					for _, s := range d.Children("SingleSignOnService") {
+						if s.A("Binding") == msg.BindRedirect {
+							sso = s.A("Location")
+						}
+					}
+				}
+				issuerOf := func(rep *world.Reply) string {
+					m := obs.Decode(rep)
+					if m.Root == nil {
+						return "(no message)"
+					}
+					r := m.Root
+					if m.Response() != nil {
+						r = m.Response()
+					}
+					if i := r.Child("Issuer"); i != nil {
+						return i.TextContent()
+					}
+					return "(no issuer)"
+				}
+				badAuthn := msg.Authn(msg.AuthnOpts{Issuer: msg.SPA().EntityID, Destination: "https://elsewhere.example/SSO"})
+				pending := w.Store.Inject(world.AuthReq{AppID: "app-a", ACS: "https://sp-a.example/acs/post", Binding: msg.BindPost, RequestID: "_p", RelayState: "rs"})
+				got := map[string]string{
+					"sso-error-reply":       issuerOf(w.Do(msg.Redirect{XML: badAuthn.Render(xt.Style{}), RelayState: "rs"}.Request(host, w.Cfg.SSOPath()))),
+					"logout-response":       issuerOf(w.Do(msg.PostForm(host, w.Cfg.SLOPath(), "SAMLRequest", msg.Logout(msg.LogoutOpts{Issuer: msg.SPA().EntityID}).Render(xt.Style{}), "rs", nil))),
+					"callback-reply":        issuerOf(callbackReq(w, host, pending.ID)),
+					"attribute-query-reply": issuerOf(w.Do(msg.SOAPRequest(host, w.Cfg.AttributePath(), msg.SOAP(msg.AttrQuery(msg.AttrQueryOpts{Issuer: msg.SPA().EntityID, NameID: "alice"})).Render(xt.Style{})))),
+				}
+				ok := true
+				for kind, iss := range got {
+					if iss != entity {
+						ok = false
+						bad("issuer-of-a-reply-differs-from-the-published-entity-id", fmt.Sprintf("%s: Issuer %q, metadata entityID %q", kind, iss, entity))
+					}
+				}
+				good := msg.Authn(msg.AuthnOpts{Issuer: msg.SPA().EntityID, Destination: sso})
+				grep := w.Do(msg.Redirect{XML: good.Render(xt.Style{}), RelayState: "rs"}.Request(host, w.Cfg.SSOPath()))
+				if !(grep.Panic == "" && grep.Status == 303 && world.CountCalls(grep.Calls, "CreateAuthRequest") == 1) {
+					ok = false
+					bad("request-addressed-to-the-advertised-sso-location-refused", fmt.Sprintf("Destination=%q: %s", sso, obs.Describe(grep, obs.Decode(grep))))
+				}
+				if ok {
+					run.Outcome("interceptors:consistent")
+				} else {
+					run.Outcome("interceptors:inconsistent")
+				}
+			}
+		}
+	}
 }
